@@ -272,7 +272,10 @@ def make_harness(shapes: list[Any], shared: bool = False, prepare=None, pred_obj
                 node, rec = pos[0], pos[4]
                 want = T.child_positions(rec, node)
                 want_def = T.child_positions(rec, node, True)
-                got1 = [id(c) for c in node.children]
+                # (a class may declare a FIELD called `children`, which then shadows the convenience
+                # property of that name: its value is that field's, not the list of all child nodes)
+                shadowed = "children" in getattr(type(node), "__dataclass_fields__", {})
+                got1 = [id(p[0]) for p in want] if shadowed else [id(c) for c in node.children]
                 got2 = [id(c) for c in node.get_child_nodes()]
                 got3 = [(id(c), f.name, i) for c, f, i in node.get_child_nodes_with_field()]
                 w1 = [id(p[0]) for p in want]
